@@ -33,7 +33,7 @@ Fixpoint split_loop (fuel : nat) (p : str) (line : N) (column : Z) (start : N) (
   | S f =>
     if start =? len p then
       (* loop exits with value/spacing of the last iteration: handled by caller through acc *)
-      POk (acc ++ [mkPart PSpacing [] [] line (column + Z.of_N start)%Z])
+      POk (acc ++ [mkPart PSpacing [] [] line (column + Z.of_N start - (if bomf then 1 else 0))%Z])
     else
       match rmatch R p start with
       | None => PErr PAttrError
@@ -43,7 +43,7 @@ Fixpoint split_loop (fuel : nat) (p : str) (line : N) (column : Z) (start : N) (
           let spacing := sub p a1 b1 in
           let value := sub p a2 b2 in
           match value with
-          | [] => POk (acc ++ [mkPart PSpacing spacing [] line (column + Z.of_N start)%Z])
+          | [] => POk (acc ++ [mkPart PSpacing spacing [] line (column + Z.of_N start - (if bomf then 1 else 0))%Z])
           | c :: _ =>
             match assocN c types with
             | None => PErr PKeyError
@@ -52,7 +52,7 @@ Fixpoint split_loop (fuel : nat) (p : str) (line : N) (column : Z) (start : N) (
               let pt := mkPart ty value spacing line
                                (column + Z.of_N start - (if bomf then 1 else 0) + Z.of_N (len spacing))%Z in
               let bomf' := match ty with PBom => true | _ => bomf end in
-              if ends_break value then split_loop f p (line + 1) (- Z.of_N e)%Z e bomf' (acc ++ [pt])
+              if ends_break value then split_loop f p (line + 1) (- Z.of_N e)%Z e false (acc ++ [pt])
               else split_loop f p line column e bomf' (acc ++ [pt])
             end
           end
